@@ -1557,6 +1557,27 @@ def _tr_contains(it, c, a):
     return it.binop('BitAnd', it.binop('Le', tsz(r.fields[0]), x), it.binop('Lt', x, tsz(r.fields[1])))
 
 
+@model('TextRange::intersect')
+def _tr_intersect(it, c, a):
+    # text-size: start = max(starts), end = min(ends); None if end < start
+    r1, r2 = deref(a[0]), deref(a[1])
+    s1, e1, s2, e2 = tsz(r1.fields[0]), tsz(r1.fields[1]), tsz(r2.fields[0]), tsz(r2.fields[1])
+    s_ = IntV(z3.simplify(z3.If(z3.UGE(s1.z(), s2.z()), s1.z(), s2.z())), 32, 0)
+    e_ = IntV(z3.simplify(z3.If(z3.ULE(e1.z(), e2.z()), e1.z(), e2.z())), 32, 0)
+    if it.choose_bool(it.binop('Lt', e_, s_)):
+        return none()
+    return some(mk_range(s_, e_))
+
+
+@model('TextRange::cover')
+def _tr_cover(it, c, a):
+    r1, r2 = deref(a[0]), deref(a[1])
+    s1, e1, s2, e2 = tsz(r1.fields[0]), tsz(r1.fields[1]), tsz(r2.fields[0]), tsz(r2.fields[1])
+    s_ = IntV(z3.simplify(z3.If(z3.ULE(s1.z(), s2.z()), s1.z(), s2.z())), 32, 0)
+    e_ = IntV(z3.simplify(z3.If(z3.UGE(e1.z(), e2.z()), e1.z(), e2.z())), 32, 0)
+    return mk_range(s_, e_)
+
+
 @model('TextRange::contains_inclusive')
 def _tr_contains_incl(it, c, a):
     r = deref(a[0]); x = tsz(a[1])
